@@ -8,6 +8,7 @@ import stocksdrv as sd
 from stocksdrv import fr, arr, oracle_dt
 
 ID = "C03"
+THOROUGH_ROUNDS = 4      # rounds of generate() in the thorough tier (new random draws each round)
 COQ_MODULE = "Corr.StocksC"
 SHARD = 60
 RULE = ("all three stock classes (flow-driven, inflow-driven DSM, stock-driven DSM with both solvers) x time grids "
